@@ -3,6 +3,7 @@ package rules
 import (
 	"fmt"
 	"go/ast"
+	"go/types"
 	"sort"
 	"strings"
 
@@ -145,27 +146,44 @@ func C10(c *Ctx) {
 		if fd.Body == nil {
 			continue
 		}
+		isOpt := func(e ast.Expr) bool {
+			se, ok := e.(*ast.SelectorExpr)
+			if !ok || se.Sel.Name != "optimize" {
+				return false
+			}
+			if sel := bp.TypesInfo.Selections[se]; sel != nil {
+				if v, ok := sel.Obj().(*types.Var); ok && v.IsField() {
+					return true
+				}
+			}
+			return false
+		}
 		ast.Inspect(fd.Body, func(n ast.Node) bool {
 			switch x := n.(type) {
 			case *ast.AssignStmt:
 				for _, l := range x.Lhs {
-					if nospace(l) == "b.optimize" {
+					if isOpt(l) {
 						writes = append(writes, fd.Name.Name)
 					}
 				}
 			case *ast.SelectorExpr:
-				if nospace(x) == "b.optimize" {
+				if isOpt(x) {
 					reads = append(reads, fd.Name.Name)
 				}
 			}
 			return true
 		})
 	}
+	// the template parameter struct is built by writeStaticCode or a helper it delegates to
+	allowed := map[string]bool{"Optimize": true}
+	for _, h := range withHelpers(bp, load.FuncDecl(bp, "builder", "writeStaticCode"), "writeExpr", "writeExprCode") {
+		allowed[h.Name.Name] = true
+	}
 	sort.Strings(reads)
 	// reads include the assignment target and the `prev := b.optimize` in the option
 	okB := strings.Join(writes, ",") == "Optimize"
 	for _, rd := range reads {
-		if rd != "Optimize" && rd != "writeStaticCode" {
+		if !allowed[rd] {
 			okB = false
 		}
 	}
